@@ -112,6 +112,99 @@ def pairs(term):
     return [(int(a), int(c)) for a, c in re.findall(r"\((\d+)%?n?a?t?, (\d+)%?n?a?t?\)", term or "")]
 
 
+WIRE_OVERLAY = {"zz_verif_timerwire_test.go": os.path.join(vp.HARNESS, "overlay", "core_consensus_qbft", "zz_verif_timerwire_test.go")}
+
+
+def wire_cases_v(rows):
+    return """From Coq Require Import List ZArith Bool Uint63.
+From Charon Require Import Qbft.Timer.
+Import ListNotations.
+Local Open Scope Z_scope.
+Definition P (i : int) : Z := Uint63.to_Z i.
+Definition M (i : int) : Z := - Uint63.to_Z i.
+Arguments P i%%uint63_scope.
+Arguments M i%%uint63_scope.
+(* each case: id, configuration of the ONE timer object the instance must behave as, kind reported by
+   Type(), the NewTimer(round) calls seen between runInstance and qbft.Run *)
+Definition cases : list (nat * cfg * kind * list obs) := [
+%s
+].
+Definition wire_rejects := Eval vm_compute in
+  flat_map (fun c => match c with (id, cf, _, os) => match first_reject_obs cf init os 0 with Some i => [(id, i)] | None => [] end end) cases.
+Definition wire_kind_mismatch := Eval vm_compute in
+  flat_map (fun c => match c with (id, cf, k, _) => if kind_eqb (c_kind cf) k then [] else [(id, 0%%nat)] end) cases.
+Print wire_rejects.
+Print wire_kind_mismatch.
+""" % ";\n".join(rows)
+
+
+def run_wire(R, only=None):
+    """Wrapper-level correspondence: the real runInstance of core/consensus/qbft (in-package overlay test,
+    synctest) with the real GetRoundTimerFunc; per instance the observed NewTimer(round) calls must be
+    those of ONE timer object of the model."""
+    cov = R.coverage
+    env = {"VERIF_WIRE_ONLY": only} if only else {}
+    rc, out, od = vp.go_overlay_test("core/consensus/qbft", WIRE_OVERLAY, run="TestVerifTimerWire$", env_extra=env,
+                                     outdir=os.path.join(vp.WORK, "ov_timerwire_" + R.pid), timeout=900)
+    if rc != 0:
+        R.broke("correspondence:overlay test TestVerifTimerWire failed to run", out[-3000:])
+        return
+    scs = json.load(open(os.path.join(od, "timerwire.json")))
+    rows, index = [], []
+    ncalls = 0
+    for sc in scs:
+        base = {"linear": sc["linear"], "eager": sc["eager"], "proposal": sc["proposal"], "dtype": sc["dtype"], "slot": sc["slot"],
+                "genesis": sc["genesis"], "slotdur": sc["slotdur"], "via": "func"}
+        rep = {"wire_scenario": sc["name"], "scenario": {k: v for k, v in sc.items() if k != "nodes"},
+               "how": "./check C04_timer --replay <this file> re-runs this scenario of TestVerifTimerWire (overlay test in core/consensus/qbft) against /repo"}
+        for pr in sc.get("problems") or []:
+            R.notes.append("timer wire %s: %s" % (sc["name"], pr))
+        for nd in sc["nodes"]:
+            calls = nd.get("calls") or []
+            ncalls += len(calls)
+            if not calls:
+                R.broke("correspondence:timer wire: no Timer(round) call observed through Consensus.timerFunc for node %d in %s" % (nd["node"], sc["name"]), json.dumps(rep)[:2000])
+                continue
+            obs = "; ".join("Obs %s %s %s %s" % (z(c["round"]), z(c["now"]), oz(c.get("fire")), z(c["until"])) for c in calls)
+            rows.append("(%d%%nat, %s, %s, [%s])" % (len(index), cfg_term(base), KIND.get(nd["kind"], "KInc"), obs))
+            index.append((sc, nd, rep))
+            # termination under timely delivery, observed directly: default-style (eager) timers, 300 ms latency,
+            # silent round-1 leader: every running member decides within one rotation (rounds 1..5)
+            if sc["mode"] == "latency" and nd["kind"] == "eager_dlinear":
+                d = nd.get("decided_at")
+                if d is None or d > sc["start_guess"] + 6 * 10 ** 9:
+                    R.violation("timer:wire-undecided",
+                                "member %d did not decide within one leader rotation (6 s after the duty start) in %s: decided_at=%s ns, %d timer objects used, calls %s"
+                                % (nd["node"], sc["name"], d, nd.get("objects", 0), [(c["round"], c["now"], c.get("fire")) for c in calls][:12]),
+                                dict(rep, node=nd["node"], calls=calls))
+    cov["evaluations"] += len(index)
+    cov["distinct_nontrivial"] += len({vp.digest([i[0]["name"], i[1]["calls"]]) for i in index if len({c["round"] for c in i[1]["calls"]}) < len(i[1]["calls"])})
+    cov["timer_wire_instances"] = len(index)
+    cov["timer_wire_scenarios"] = len(scs)
+    cov["timer_wire_calls"] = ncalls
+    cov["timer_wire_rule"] = ("real runInstance (Propose / ProposePriority) of 3 running members of a 4-member cluster, silent round-1 leader, real GetRoundTimerFunc with genesis + 12 s slots, "
+                              "5 flag combinations x {attester, proposer, aggregator} x {300 ms latency; 300 ms latency with round-2 PREPARE/COMMIT lost}, synctest virtual time; "
+                              "per instance the (round, now, firing instant, stopped-at) of every Timer call reaching core/qbft.Run must be produced by ONE model timer object; "
+                              "eager timers under plain latency must decide within one rotation")
+    if not rows:
+        return
+    rc, out = vp.coq_eval("%s_timerwire" % R.pid, wire_cases_v(rows))
+    if rc != 0:
+        R.broke("correspondence:cases_timerwire does not compile", out[-3000:])
+        return
+    for cid, idx in pairs(vp.parse_marked(out, "wire_rejects")):
+        sc, nd, rep = index[cid]
+        calls = nd["calls"]
+        c = calls[idx] if idx < len(calls) else {}
+        R.violation("timer:wire",
+                    "the round timers handed to core/qbft.Run by runInstance do not behave as one %s timer object: member %d in %s, call %d = Timer(%s) at %s ns fired at %s (watched until %s ns); %d timer objects served the instance's calls"
+                    % (nd["kind"], nd["node"], sc["name"], idx, c.get("round"), c.get("now"), c.get("fire"), c.get("until"), len({x["obj"] for x in calls})),
+                    dict(rep, node=nd["node"], index=idx, calls=calls))
+    for cid, _ in pairs(vp.parse_marked(out, "wire_kind_mismatch")):
+        sc, nd, rep = index[cid]
+        R.violation("timer:wire-kind", "runInstance of %s runs a %s timer; the model selects another kind for these flags and duty type" % (sc["name"], nd["kind"]), dict(rep, node=nd["node"]))
+
+
 def run(R):
     t0 = time.time()
     cov = R.coverage
@@ -134,6 +227,18 @@ def run(R):
     n = 4000 if R.thorough else 600
     env = {"VERIF_N": n}
     rp = os.environ.get("VERIF_REPLAY")
+    wire_only = None
+    if rp:
+        try:
+            j = json.load(open(rp))
+            j = j.get("replay", j)
+            if isinstance(j, dict) and j.get("wire_scenario"):
+                wire_only = j["wire_scenario"]
+        except (OSError, ValueError):
+            pass
+    tw = time.time()
+    run_wire(R, wire_only)
+    cov["timer_wire_wall_s"] = round(time.time() - tw, 1)
     if rp:
         # only replay files produced by this part (cfg + script of a timer history) are for this harness
         try:
